@@ -122,6 +122,8 @@ def extract(ctx):
     t = rw.sub(t, r'\bisProperlyPlaced\(', 'Block_isProperlyPlaced(self, ', 1, 1, name='method')
     t = rw.asserts(t, 2, macro='MALLOC_ASSERT')
     out.append(rw.std(t))
+    common.write(ctx, 'placed.inc', '\n'.join(out) + '\n')
+    out = []
     s = slice_block(FE, r'bool empty\(\) const')
     sliced.append('%s:%d Block::empty' % (FE, s.line))
     t = rw.sub(s.text, r'bool empty\(\) const', 'static bool Block_empty(const Block *self)', 1, 1, name='sig')
@@ -142,12 +144,14 @@ def extract(ctx):
     t = rw.asserts(t, 2, macro='MALLOC_ASSERT')
     out.append(rw.std(t))
     s = slice_block(FE, r'(?m)^void Block::freePublicObject \(FreeObject \*objectToFree\)')
-    sliced.append('%s:%d Block::freePublicObject (list push; the mailbox notification after it is cut)' % (FE, s.line))
+    sliced.append('%s:%d Block::freePublicObject (list push only; the whole function: pfl.push)' % (FE, s.line))
     t = cxx2c.cpp_resolve(s.text, MACF, 'freePublicObject')
-    m = re.search(r'\n\s*if\( localPublicFreeList==nullptr \) \{', t)
+    mk = cxx2c.mask(t)
+    m = re.search(r'\}\s*while\s*\(', mk)
     if not m:
-        raise ExtractionBreak('freePublicObject: the "first object on the public list" tail not found')
-    t = t[:m.start()] + '\n    if( localPublicFreeList==nullptr ) STUB_notifyOwner(self);   /* tail cut: mailbox hand-off to the owner bin */\n}'
+        raise ExtractionBreak('freePublicObject: the push loop (do .. while) not found')
+    e = mk.find(';', cxx2c.match_close(mk, m.end() - 1, '(', ')'))
+    t = t[:e + 1] + '\n    /* tail cut here: the mailbox hand-off that follows is proved on the whole function in job pfl.push */\n}'
     rw.fired['cut tail of freePublicObject'] = 1
     t = rw.sub(t, r'void Block::freePublicObject \(FreeObject \*objectToFree\)', 'void Block_freePublicObject(Block *self, FreeObject *objectToFree)', 1, 1, name='sig')
     t = rw.sub(t, r'FreeObject\* localPublicFreeList\{\};', 'FreeObject* localPublicFreeList = NULL;', 1, 1, name='brace-init')
@@ -195,8 +199,403 @@ def extract(ctx):
     return sliced, fired
 
 
+LO_H = 'src/tbbmalloc/large_objects.h'
+LO_C = 'src/tbbmalloc/large_objects.cpp'
+CUST = 'src/tbbmalloc/Customize.h'
+UTILS = 'include/oneapi/tbb/detail/_utils.h'
+MACA = dict(MAC); MACA.update({'MALLOC_CHECK_RECURSION': 1, '__TBB_USE_THREAD_SANITIZER': 0, 'COLLECT_STATISTICS': 0})
+
+
+def extract_aligned(ctx, sliced, fired):
+    """allocateAligned, internalMsize, Block::findObjectSize/getSize, isLargeObject<>, getFromLLOCache and the large-object bin arithmetic"""
+    rw = Rewriter('aligned')
+    out = []
+    # pointer instantiations of alignUp / alignDown
+    for name in ('alignDown', 'alignUp'):
+        s = slice_block(SU, r'static inline T %s\s*\(T arg, uintptr_t alignment\)' % name)
+        t = rw.sub(s.text, r'static inline T %s\s*\(T arg, uintptr_t alignment\)' % name, 'static inline void* %s_ptr(void* arg, uintptr_t alignment)' % name, 1, 1, name='bind-template(T:=void*)')
+        t = rw.sub(t, r'\bT\(', '(void*)(', 1, 1, name='bind-template(T:=void*)')
+        out.append(t)
+    s = slice_block(UTILS, r'constexpr bool is_power_of_two\( IntegerType arg \)')
+    sliced.append('%s:%d is_power_of_two' % (UTILS, s.line))
+    t = rw.sub(s.text, r'constexpr bool is_power_of_two\( IntegerType arg \)', 'static bool isPowerOfTwo(uintptr_t arg)', 1, 1, name='sig (Customize.h isPowerOfTwo forwards to it) + bind-template(IntegerType:=uintptr_t)')
+    t = rw.sub(t, r'(?s)static_assert\(std::is_integral<IntegerType>::value,.*?\);', 'RG_NOP();', 1, 1, name='static_assert on the template type -> RG_NOP')
+    out.append(t)
+    if not re.search(r'static inline bool isPowerOfTwo\(uintptr_t arg\) \{\s*return tbb::detail::is_power_of_two\(arg\);', load(CUST)):
+        raise ExtractionBreak('Customize.h: isPowerOfTwo no longer forwards to is_power_of_two')
+    common.write(ctx, 'alignp.inc', '\n'.join(out) + '\n')
+    out = []
+    # back references: the index type and its accessors
+    for pat, what in ((r'main_t main;\s*// index in BackRefMain\s*uint16_t largeObj:1;\s*// is this object "large"\?\s*uint16_t offset\s*:15;', 'BackRefIdx layout'),
+                      (r'enum MemoryOrigin \{\s*ourMem,[^}]*unknownMem', 'MemoryOrigin'), (r'const uint16_t startupAllocObjSizeMark = ~\(uint16_t\)0;', 'startupAllocObjSizeMark'),
+                      (r'struct LargeMemoryBlock : public BlockI \{\s*MemoryPool\s*\*pool;', 'LargeMemoryBlock layout'), (r'intptr_t\s+blockState\[2\];', 'BlockI layout'),
+                      (r'unsigned\s+currCacheIdx;', 'TLSData::currCacheIdx')):
+        if not re.search(pat, load(TI) + load(FE)):
+            raise ExtractionBreak('tbbmalloc: %s changed' % what)
+    s = slice_stmt(FE, r'const uint16_t startupAllocObjSizeMark\s*=')
+    m = re.match(r'const uint16_t (\w+)\s*=\s*(.*);', s.text, re.S)
+    if not m:
+        raise ExtractionBreak('cannot parse startupAllocObjSizeMark')
+    mark = '#define %s ((uint16_t)(%s))' % (m.group(1), m.group(2).strip())
+    rw.fired['const-global->#define'] = 1
+    s = slice_block(TI, r'BackRefIdx dereference\(const BackRefIdx\* ptr\)', nth=1)
+    sliced.append('%s:%d dereference' % (TI, s.line))
+    out.append('static ' + s.text)
+    s = slice_block(TI, r'bool isLargeObject\(\) const')
+    sliced.append('%s:%d BackRefIdx::isLargeObject' % (TI, s.line))
+    out.append(rw.sub(s.text, r'bool isLargeObject\(\) const \{ return largeObj; \}', 'static bool BackRefIdx_isLargeObject(const BackRefIdx *self) { return self->largeObj; }', 1, 1, name='sig + field'))
+    s = slice_block(FE, r'static inline BackRefIdx safer_dereference \(const BackRefIdx \*ptr\)')
+    sliced.append('%s:%d safer_dereference' % (FE, s.line))
+    out.append(cxx2c.cpp_resolve(s.text, MACA, 'safer_dereference'))
+    s = slice_block(FE, r'template<MemoryOrigin memOrigin>\s*bool isLargeObject\(void \*object\)')
+    sliced.append('%s:%d isLargeObject<memOrigin>' % (FE, s.line))
+    t = rw.sub(s.text, r'template<MemoryOrigin memOrigin>\s*bool isLargeObject\(void \*object\)', 'static bool isLargeObject(const int memOrigin, void *object)', 1, 1, name='template enum -> parameter')
+    t = rw.sub(t, r'\bgetBackRef\(', 'STUB_getBackRef(', 0, name='callee stub (the back-reference table)')
+    t = rw.sub(t, r'\bidx\.isLargeObject\(\)', 'BackRefIdx_isLargeObject(&idx)', 0, name='method')
+    out.append(rw.std(t))
+    common.write(ctx, 'recog.inc', '\n'.join(out) + '\n')
+    out = [mark]
+    # slab object size
+    s = slice_block(FE, r'bool isStartupAllocObject\(\) const')
+    sliced.append('%s:%d Block::isStartupAllocObject' % (FE, s.line))
+    out.append(rw.sub(s.text, r'bool isStartupAllocObject\(\) const \{ return objectSize == startupAllocObjSizeMark; \}', 'static bool Block_isStartupAllocObject(const Block *self) { return self->objectSize == startupAllocObjSizeMark; }', 1, 1, name='sig + field'))
+    s = slice_block(FE, r'unsigned int getSize\(\) const')
+    sliced.append('%s:%d Block::getSize' % (FE, s.line))
+    t = rw.sub(s.text, r'unsigned int getSize\(\) const', 'static unsigned int Block_getSize(const Block *self)', 1, 1, name='sig')
+    t = rw.sub(t, r'\bisStartupAllocObject\(\)', 'Block_isStartupAllocObject(self)', 2, 2, name='method')
+    t = rw.sub(t, r'(?<![\w.>])(objectSize)\b', r'self->\1', 2, name='field')
+    t = rw.asserts(t, 1, macro='MALLOC_ASSERT')
+    out.append(t)
+    s = slice_block(FE, r'size_t Block::findObjectSize\(void \*object\) const')
+    sliced.append('%s:%d Block::findObjectSize' % (FE, s.line))
+    t = cxx2c.cpp_resolve(s.text, MACA, 'findObjectSize')
+    t = rw.sub(t, r'size_t Block::findObjectSize\(void \*object\) const', 'static size_t Block_findObjectSize(const Block *self, void *object)', 1, 1, name='sig')
+    t = rw.sub(t, r'\bgetSize\(\)', 'Block_getSize(self)', 1, 1, name='method')
+    t = rw.sub(t, r'StartupBlock::msize\(object\)', 'STUB_StartupBlock_msize(object)', 1, 1, name='callee stub (startup allocator)')
+    t = rw.sub(t, r'\bfindObjectToFree\(object\)', 'Block_findObjectToFree(self, object)', 0, name='method')
+    t = rw.asserts(t, 0, macro='MALLOC_ASSERT')
+    out.append(t)
+    s = slice_block(FE, r'static size_t internalMsize\(void\* ptr\)')
+    sliced.append('%s:%d internalMsize' % (FE, s.line))
+    t = rw.sub(s.text, r'isLargeObject<ourMem>\(ptr\)', 'isLargeObject(ourMem, ptr)', 0, name='template-arg -> argument')
+    t = rw.sub(t, r'\(Block\*\)alignDown\(ptr, slabSize\)', '(Block*)alignDown_ptr(ptr, slabSize)', 0, name='bind-template(T:=void*)')
+    t = rw.sub(t, r'block->findObjectSize\(ptr\)', 'Block_findObjectSize(block, ptr)', 0, name='method')
+    t = rw.asserts(t, 0, macro='MALLOC_ASSERT')
+    out.append(t)
+    common.write(ctx, 'msize.inc', '\n'.join(out) + '\n')
+    # allocateAligned
+    s = slice_block(FE, r'static void \*allocateAligned\(MemoryPool \*memPool, size_t size, size_t alignment\)')
+    sliced.append('%s:%d allocateAligned' % (FE, s.line))
+    t = s.text
+    t = rw.sub(t, r'\bisMallocInitialized\(\)', 'STUB_isMallocInitialized()', 1, 1, name='callee stub')
+    t = rw.sub(t, r'\bdoInitialization\(\)', 'STUB_doInitialization()', 1, 1, name='callee stub')
+    t = rw.sub(t, r'alignUp\(unaligned, alignment\)', 'alignUp_ptr(unaligned, alignment)', 0, name='bind-template(T:=void*)')
+    t = rw.sub(t, r'memPool->getTLS\(\s*true\)', 'STUB_getTLS(memPool, true)', 1, 1, name='callee stub')
+    t = rw.sub(t, r'memPool->getFromLLOCache\(', 'MemoryPool_getFromLLOCache(memPool, ', 0, name='method')
+    t = rw.sub(t, r'(?m)^(\s*LargeObjAlloc:)\s*$', r'\1 ;', 0, name='label before a declaration gets an empty statement (C grammar)')
+    t = rw.asserts(t, 0, macro='MALLOC_ASSERT')
+    t = rw.std(t)
+    common.write(ctx, 'aligned.inc', t + '\n')
+    fired['aligned'] = rw.fired
+
+
+def with_literals_protected(text, fn):
+    """apply fn to text with string literals replaced by comma-free placeholders (the assert rule splits arguments at commas)"""
+    lits = []
+
+    def stash(mm):
+        lits.append(mm.group(0))
+        return '"@LIT%d@"' % (len(lits) - 1)
+    text = re.sub(r'"(?:[^"\\\n]|\\.)*"', stash, text)
+    text = fn(text)
+    return re.sub(r'"@LIT(\d+)@"', lambda mm: lits[int(mm.group(1))], text)
+
+
+def extract_lloc(ctx, sliced, fired):
+    """MemoryPool::getFromLLOCache and the bin arithmetic of the large-object cache (alignToBin / sizeToIdx of the arithmetic and the geometric bins)"""
+    rw = Rewriter('lloc')
+    H = load(LO_H)
+    out = []
+    m = re.search(r'static const size_t minLargeSize = ([^,;]+),\s*maxLargeSize = ([^,;]+),\s*(?://[^\n]*\n\s*)*maxHugeSize = ([^;]+);', cxx2c.strip_comments(H))
+    if not m:
+        raise ExtractionBreak('large_objects.h: minLargeSize/maxLargeSize/maxHugeSize declaration changed')
+    for n, v in zip(('minLargeSize', 'maxLargeSize', 'maxHugeSize'), m.groups()):
+        v = rw.sub(v.strip(), r'tbb::detail::select_size_t_constant<([^<>]*)>::value', r'VERIF_SELECT_SIZE_T(\1)', 0, name='select_size_t_constant<u, ull>::value -> macro (sizeof(size_t) == 8 picks ull; value cross-checked natively in tv)')
+        out.append('#define %s ((size_t)(%s))' % (n, v))
+    for cls, pre in (('LargeBinStructureProps', 'LargeBS'), ('HugeBinStructureProps', 'HugeBS')):
+        m = re.search(r'typedef %s<(\w+), (\w+)> %sProps;' % (cls, pre), H)
+        if not m:
+            raise ExtractionBreak('large_objects.h: typedef of %sProps changed' % pre)
+        out.append('#define %s_MIN_SIZE (%s)\n#define %s_MAX_SIZE (%s)' % (pre, m.group(1), pre, m.group(2)))
+        rw.fired['bind-template(MIN_SIZE, MAX_SIZE)'] = rw.fired.get('bind-template(MIN_SIZE, MAX_SIZE)', 0) + 1
+        body = slice_block(LO_H, r'struct %s \{' % cls).text
+        names = []
+        for cm in re.finditer(r'static const (?:size_t|unsigned|int)\s+((?:\w+\s*=\s*[^,;]+,?\s*)+);', body):
+            for one in cxx2c.split_args(cm.group(1)):
+                k, v = [x.strip() for x in one.split('=', 1)]
+                names.append((k, v))
+        if not names:
+            raise ExtractionBreak('%s: no constants found' % cls)
+        allk = [k for k, _ in names]
+        for k, v in names:
+            v = re.sub(r'Log2<(\w+)>::value', r'VERIF_LOG2(\1)', v)
+            v = re.sub(r'\b(%s|MIN_SIZE|MAX_SIZE)\b' % '|'.join(allk), pre + r'_\1', v)
+            out.append('#define %s_%s (%s)' % (pre, k, v))
+            rw.fired['class-constant->#define'] = rw.fired.get('class-constant->#define', 0) + 1
+        for fn, ret in (('alignToBin', 'size_t'), ('sizeToIdx', 'int')):
+            s = slice_block(LO_H, r'static %s %s\(size_t size\)' % (ret, fn), within=r'struct %s \{' % cls)
+            sliced.append('%s:%d %s::%s' % (LO_H, s.line, cls, fn))
+            t = rw.sub(s.text, r'static %s %s\(size_t size\)' % (ret, fn), 'static %s %s_%s(size_t size)' % (ret, pre, fn), 1, 1, name='sig')
+            t = with_literals_protected(t, lambda x: rw.asserts(rw.sub(x, r'\b(%s)\b' % '|'.join(allk), pre + r'_\1', 1, name='class constant'), 0, macro='MALLOC_ASSERT'))
+            out.append(t)
+    for fn in ('alignToBin', 'sizeToIdx'):
+        if not re.search(r'static (?:size_t|int) %s\(size_t size\) \{\s*return Props::%s\(size\);' % (fn, fn), H):
+            raise ExtractionBreak('LargeObjectCacheImpl::%s no longer forwards to Props::%s' % (fn, fn))
+    if not re.search(r'static const uint32_t numBins = Props::NumBins;', H):
+        raise ExtractionBreak('LargeObjectCacheImpl::numBins is no longer Props::NumBins')
+    s = slice_block(CUST, r'inline intptr_t BitScanRev\(uintptr_t x\)')
+    sliced.append('%s:%d BitScanRev' % (CUST, s.line))
+    t = rw.sub(s.text, r'inline intptr_t BitScanRev\(uintptr_t x\)', 'static intptr_t BitScanRev(uintptr_t x)', 1, 1, name='sig')
+    t = rw.sub(t, r'tbb::detail::log2\(', 'tbb_log2(', 1, 1, name='ns-strip')
+    t = rw.casts(t, 1)
+    out.insert(0, t)
+    log2_txt, f = common.log2_c(ctx, sliced)
+    out.insert(0, log2_txt)
+    fired['log2'] = f
+    for fn, ret in (('alignToBin', 'size_t'), ('sizeToIdx', 'int')):
+        s = slice_block(LO_C, r'%s LargeObjectCache::%s\(size_t size\)' % (ret, fn))
+        sliced.append('%s:%d LargeObjectCache::%s' % (LO_C, s.line, fn))
+        t = rw.sub(s.text, r'%s LargeObjectCache::%s\(size_t size\)' % (ret, fn), 'static %s LargeObjectCache_%s(size_t size)' % (ret, fn), 1, 1, name='sig')
+        t = rw.sub(t, r'LargeCacheType::(alignToBin|sizeToIdx)\(', r'LargeBS_\1(', 1, 1, name='LargeObjectCacheImpl<Props>::f forwards to Props::f')
+        t = rw.sub(t, r'HugeCacheType::(alignToBin|sizeToIdx)\(', r'HugeBS_\1(', 1, 1, name='LargeObjectCacheImpl<Props>::f forwards to Props::f')
+        t = rw.sub(t, r'LargeCacheType::numBins', 'LargeBS_NumBins', 0, name='numBins == Props::NumBins')
+        t = rw.asserts(t, 0, macro='MALLOC_ASSERT')
+        out.append(t)
+    common.write(ctx, 'locbins.inc', '\n'.join(out) + '\n')
+    s = slice_block(FE, r'void \*MemoryPool::getFromLLOCache\(TLSData\* tls, size_t size, size_t alignment\)')
+    sliced.append('%s:%d MemoryPool::getFromLLOCache' % (FE, s.line))
+    t = rw.sub(s.text, r'void \*MemoryPool::getFromLLOCache\(TLSData\* tls, size_t size, size_t alignment\)', 'static void *MemoryPool_getFromLLOCache(MemoryPool *self, TLSData* tls, size_t size, size_t alignment)', 1, 1, name='sig')
+    t = rw.sub(t, r'LargeObjectCache::alignToBin\(', 'LargeObjectCache_alignToBin(', 1, 1, name='ns-strip')
+    t = rw.sub(t, r'tls->markUsed\(\);', 'STUB_tls_markUsed(tls);', 0, name='callee stub')
+    t = rw.sub(t, r'tls->lloc\.get\(', 'STUB_lloc_get(tls, ', 0, name='callee stub (thread-local cache of large blocks: exact-size match)')
+    t = rw.sub(t, r'extMemPool\.mallocLargeObject\(this, ', 'STUB_mallocLargeObject(self, ', 0, name='callee stub (global cache / backend)')
+    t = rw.sub(t, r'\bsetBackRef\(', 'STUB_setBackRef(', 0, name='callee stub (the back-reference table)')
+    t = rw.sub(t, r'isLargeObject<unknownMem>\(', 'isLargeObject(unknownMem, ', 0, name='template-arg -> argument')
+    t = with_literals_protected(t, lambda x: rw.asserts(x, 0, macro='MALLOC_ASSERT'))
+    t = rw.std(t)
+    # the block header and the object header are reached through accessor macros: the harness keeps these two records as ghost memory, so that the block may sit at ANY address
+    t = rw.sub(t, r'\b(lmb|header)->(\w+) = ([^;]+);', lambda m: '%s_WR(%s, %s, %s);' % ('LMB' if m.group(1) == 'lmb' else 'HDR', m.group(1), m.group(2), m.group(3)), 0, name='store into LargeMemoryBlock / LargeObjectHdr -> LMB_WR / HDR_WR')
+    t = rw.sub(t, r'\b(lmb|header)->(\w+)\b', lambda m: '%s_RD(%s, %s)' % ('LMB' if m.group(1) == 'lmb' else 'HDR', m.group(1), m.group(2)), 1, name='load from LargeMemoryBlock / LargeObjectHdr -> LMB_RD / HDR_RD')
+    common.write(ctx, 'lloc.inc', t + '\n')
+    # isLargeObject once more, its header loads behind the same accessors (the text is otherwise the one of recog.inc)
+    s = slice_block(FE, r'template<MemoryOrigin memOrigin>\s*bool isLargeObject\(void \*object\)')
+    t = rw.sub(s.text, r'template<MemoryOrigin memOrigin>\s*bool isLargeObject\(void \*object\)', 'static bool isLargeObject(const int memOrigin, void *object)', 1, 1, name='template enum -> parameter')
+    t = rw.sub(t, r'\bgetBackRef\(', 'STUB_getBackRef(', 0, name='callee stub (the back-reference table)')
+    t = rw.sub(t, r'\bidx\.isLargeObject\(\)', 'BackRefIdx_isLargeObject(&idx)', 0, name='method')
+    t = rw.sub(t, r'\b(?:safer_)?dereference\(&header->backRefIdx\)', 'HDR_RD(header, backRefIdx)', 2, 2, name='dereference(&header->f) (a plain copy: `return *ptr`) -> HDR_RD')
+    t = rw.sub(t, r'\bheader->(\w+)\b', r'HDR_RD(header, \1)', 0, name='load from LargeObjectHdr -> HDR_RD')
+    s2 = slice_block(TI, r'bool isLargeObject\(\) const')
+    t2 = rw.sub(s2.text, r'bool isLargeObject\(\) const \{ return largeObj; \}', 'static bool BackRefIdx_isLargeObject(const BackRefIdx *self) { return self->largeObj; }', 1, 1, name='sig + field')
+    common.write(ctx, 'recog_acc.inc', t2 + '\n' + rw.std(t) + '\n')
+    fired['lloc'] = rw.fired
+
+
+MACP = dict(MAC); MACP.update({'FREELIST_NONBLOCKING': 1, 'COLLECT_STATISTICS': 0, 'MALLOC_CHECK_RECURSION': 1, 'MALLOC_DEBUG': 1, 'TBB_REVAMP_TODO': 0})
+
+
+def extract_pfl(ctx, sliced, fired):
+    """the public free list protocol: Block::freePublicObject (whole), privatizePublicFreeList, readyToShare, shareOrphaned, Bin::addPublicFreeListBlock, and the pop side Block::allocateFromFreeList"""
+    rw = Rewriter('pfl')
+    out = []
+    s = slice_stmt(FE, r'const intptr_t UNUSABLE\s*=')
+    m = re.match(r'const intptr_t UNUSABLE\s*=\s*(.*);', s.text, re.S)
+    if not m:
+        raise ExtractionBreak('cannot parse UNUSABLE')
+    out.append('#define UNUSABLE ((intptr_t)(%s))' % m.group(1).strip())
+    rw.fired['const-global->#define'] = 1
+    for name in ('isSolidPtr', 'isNotForUse'):
+        s = slice_block(FE, r'inline bool %s\( void\* ptr \)' % name)
+        sliced.append('%s:%d %s' % (FE, s.line, name))
+        out.append(rw.sub(s.text, r'inline bool %s\( void\* ptr \)' % name, 'static bool %s(void* ptr)' % name, 1, 1, name='sig'))
+    FIELDS = r'(?<![\w.>])(publicFreeList|nextPrivatizable|allocatedCount|objectSize|freeList|previous|bumpPtr|isFull)\b'
+
+    def common_rules(t, fname, nloops=None):
+        t = rw.sub(t, r'STAT_increment\([^;]*\);', 'RG_NOP();', 0, name='stat->RG_NOP')
+        t = rw.sub(t, r'MALLOC_ITT_SYNC_(?:RELEASING|ACQUIRED)\([^;]*\);', 'RG_NOP();', 0, name='itt->RG_NOP')
+        t = rw.atomics(t, ['publicFreeList', 'nextPrivatizable', 'mailbox'], 1)
+        t = rw.sub(t, FIELDS, r'self->\1', 0, name='field')
+        t = with_literals_protected(t, lambda x: rw.asserts(x, 0, macro='MALLOC_ASSERT'))
+        t = rw.casts(t, 0)
+        t = rw.std(t)
+        t = with_literals_protected(t, lambda x: rw.number_sites(x, fname, by_kind=True))
+        t = cxx2c.tag_loops(t, fname, rw, expect=nloops)
+        return t
+    # pop side
+    s = slice_block(FE, r'FreeObject \*Block::allocateFromFreeList\(\)')
+    sliced.append('%s:%d Block::allocateFromFreeList' % (FE, s.line))
+    t = rw.sub(s.text, r'FreeObject \*Block::allocateFromFreeList\(\)', 'FreeObject *Block_allocateFromFreeList(Block *self)', 1, 1, name='sig')
+    t = rw.sub(t, r'\bresult->next\b', 'FO_NEXT(result)', 0, name='load of a free object\'s link -> FO_NEXT (ghost list)')
+    t = rw.sub(t, r'STAT_increment\([^;]*\);', 'RG_NOP();', 0, name='stat->RG_NOP')
+    t = rw.sub(t, FIELDS, r'self->\1', 0, name='field')
+    t = rw.asserts(t, 0, macro='MALLOC_ASSERT')
+    out.append(rw.std(t))
+    # privatise
+    s = slice_block(FE, r'void Block::privatizePublicFreeList\( bool reset \)')
+    sliced.append('%s:%d Block::privatizePublicFreeList' % (FE, s.line))
+    t = cxx2c.cpp_resolve(s.text, MACP, 'privatizePublicFreeList')
+    t = rw.sub(t, r'void Block::privatizePublicFreeList\( bool reset \)', 'void Block_privatizePublicFreeList(Block *self, bool reset)', 1, 1, name='sig')
+    t = rw.sub(t, r'isNotForUse\(publicFreeList\)', 'isNotForUse(publicFreeList.load(std::memory_order_relaxed))', 0, name='implicit atomic load in assert')
+    t = rw.sub(t, r'\bisOwnedByCurrentThread\(\)', 'STUB_isOwnedByCurrentThread(self)', 0, name='callee stub')
+    t = rw.sub(t, r'\btemp->next = ([^;]+);', r'FO_SET_NEXT(temp, \1);', 0, name='store into a free object -> FO_SET_NEXT (ghost list)')
+    t = rw.sub(t, r'\btemp->next\b', 'FO_NEXT(temp)', 0, name='load of a free object\'s link -> FO_NEXT (ghost list)')
+    out.append(common_rules(t, 'ppfl', 1))
+    # push, whole function
+    s = slice_block(FE, r'(?m)^void Block::freePublicObject \(FreeObject \*objectToFree\)')
+    sliced.append('%s:%d Block::freePublicObject (with the mailbox hand-off)' % (FE, s.line))
+    t = cxx2c.cpp_resolve(s.text, MACP, 'freePublicObject')
+    t = rw.sub(t, r'void Block::freePublicObject \(FreeObject \*objectToFree\)', 'void Block_freePublicObject2(Block *self, FreeObject *objectToFree)', 1, 1, name='sig')
+    t = rw.sub(t, r'FreeObject\* localPublicFreeList\{\};', 'FreeObject* localPublicFreeList = NULL;', 1, 1, name='brace-init')
+    t = rw.sub(t, r'\bobjectToFree->next = ([^;]+);', r'FO_SET_NEXT(objectToFree, \1);', 0, name='store into a free object -> FO_SET_NEXT (ghost list)')
+    t = rw.sub(t, r'theBin->addPublicFreeListBlock\(this\);', 'Bin_addPublicFreeListBlock(theBin, self);', 0, name='method')
+    out_fpo = common_rules(t, 'fpo2', 1)
+    # the owner's side of orphaning
+    s = slice_block(FE, r'bool Block::readyToShare\(\)')
+    sliced.append('%s:%d Block::readyToShare' % (FE, s.line))
+    t = cxx2c.cpp_resolve(s.text, MACP, 'readyToShare')
+    t = rw.sub(t, r'bool Block::readyToShare\(\)', 'bool Block_readyToShare(Block *self)', 1, 1, name='sig')
+    out.append(common_rules(t, 'rts', 0))
+    s = slice_block(FE, r'void Block::shareOrphaned\(intptr_t binTag, unsigned index\)')
+    sliced.append('%s:%d Block::shareOrphaned' % (FE, s.line))
+    t = rw.sub(s.text, r'void Block::shareOrphaned\(intptr_t binTag, unsigned index\)', 'void Block_shareOrphaned(Block *self, intptr_t binTag, unsigned index)', 1, 1, name='sig')
+    t = rw.sub(t, r'tbb::detail::suppress_unused_warning\(index\);', 'RG_NOP();', 1, 1, name='unused-warning helper -> RG_NOP')
+    t = rw.sub(t, r'\bmarkOrphaned\(\);', 'STUB_markOrphaned(self);', 0, name='callee stub (clears tlsPtr)')
+    t = rw.sub(t, r'\breadyToShare\(\)', 'Block_readyToShare(self)', 0, name='method')
+    t = rw.sub(t, r'\bdo_yield\(\);', 'RG_NOP();', 0, name='yield -> RG_NOP')
+    out.append(common_rules(t, 'so', 1))
+    s = slice_block(FE, r'void Bin::addPublicFreeListBlock\(Block\* block\)')
+    sliced.append('%s:%d Bin::addPublicFreeListBlock' % (FE, s.line))
+    t = rw.sub(s.text, r'void Bin::addPublicFreeListBlock\(Block\* block\)', 'void Bin_addPublicFreeListBlock(Bin *self, Block* block)', 1, 1, name='sig')
+    t = rw.scoped_locks(t, r'MallocMutex::scoped_lock scoped_cs\((mailLock)\);', 1, 1)
+    t = rw.sub(t, r'(?<![\w.>])(mailLock|mailbox)\b', r'self->\1', 2, name='field')
+    t = rw.atomics(t, ['nextPrivatizable', 'mailbox'], 1)
+    t = rw.std(t)
+    t = rw.number_sites(t, 'apfb', by_kind=True)
+    out.append(t)
+    out.append(out_fpo)
+    common.write(ctx, 'pfl.inc', '\n'.join(out) + '\n')
+    fired['pfl'] = rw.fired
+
+
+BE = 'src/tbbmalloc/backend.cpp'
+BH = 'src/tbbmalloc/backend.h'
+
+
+def extract_backend(ctx, sliced, fired):
+    """backend: GuardedSize (the lock-or-size word of the boundary tags), FreeBlock::tryLockBlock, Backend::splitBlock"""
+    rw = Rewriter('backend')
+    out = []
+    GS = r'class GuardedSize'
+    s = slice_block(BE, r'enum State \{', within=GS)
+    sliced.append('%s:%d GuardedSize::State' % (BE, s.line))
+    out.append(rw.sub(s.text, r'enum State \{', 'enum GuardedSize_State {', 1, 1, name='sig') + ';')
+    common.write(ctx, 'gsenum.inc', out[0] + '\n')
+    if not re.search(r'class GuardedSize : tbb::detail::no_copy \{\s*std::atomic<uintptr_t> value;', load(BE)):
+        raise ExtractionBreak('GuardedSize layout changed')
+    if not re.search(r'class BlockMutexes \{\s*protected:\s*GuardedSize myL,\s*(?://[^\n]*\n)?\s*leftL;', load(BE)):
+        raise ExtractionBreak('BlockMutexes layout changed')
+
+    def gs_method(name, sig, csig, nloops):
+        s = slice_block(BE, sig, within=GS)
+        sliced.append('%s:%d GuardedSize::%s' % (BE, s.line, name))
+        t = rw.sub(s.text, sig, csig, 1, 1, name='sig')
+        t = rw.atomics(t, ['value'], 1)
+        t = rw.sub(t, r'(?<![\w.>])value\b', 'self->value', 1, name='field')
+        t = with_literals_protected(t, lambda x: rw.asserts(x, 0, macro='MALLOC_ASSERT'))
+        t = rw.std(t)
+        t = with_literals_protected(t, lambda x: rw.number_sites(x, 'gs_' + name, by_kind=True))
+        return cxx2c.tag_loops(t, 'gs_' + name, rw, expect=nloops)
+    out.append(gs_method('initLocked', r'void initLocked\(\)', 'static void GuardedSize_initLocked(GuardedSize *self)', 0))
+    out.append(gs_method('makeCoalscing', r'void makeCoalscing\(\)', 'static void GuardedSize_makeCoalscing(GuardedSize *self)', 0))
+    out.append(gs_method('tryLock', r'size_t tryLock\(State state\)', 'static size_t GuardedSize_tryLock(GuardedSize *self, enum GuardedSize_State state)', 1))
+    out.append(gs_method('unlock', r'void unlock\(size_t size\)', 'static void GuardedSize_unlock(GuardedSize *self, size_t size)', 0))
+    common.write(ctx, 'gs.inc', '\n'.join(out) + '\n')
+    out_gs, out = out, []
+    FB = r'class FreeBlock : BlockMutexes'
+
+    def fb_method(name, sig, csig):
+        s = slice_block(BE, sig, within=FB)
+        sliced.append('%s:%d FreeBlock::%s' % (BE, s.line, name))
+        t = rw.sub(s.text, sig, csig, 1, 1, name='sig')
+        t = rw.sub(t, r'rightNeig\(([^()]*)\)->leftL\.(\w+)\(\)', r'GuardedSize_\2(&FreeBlock_rightNeig(self, \1)->leftL)', 0, name='member of the right neighbour')
+        t = rw.sub(t, r'rightNeig\(([^()]*)\)->(\w+)\(', r'FreeBlock_\2(FreeBlock_rightNeig(self, \1), ', 0, name='method of the right neighbour')
+        t = rw.sub(t, r'\b(myL|leftL)\.(\w+)\(\)', r'GuardedSize_\2(&self->\1)', 0, name='member-object method')
+        t = rw.sub(t, r'\b(myL|leftL)\.(\w+)\(', r'GuardedSize_\2(&self->\1, ', 0, name='member-object method')
+        t = rw.sub(t, r'(?<![\w.>:_])(trySetMeUsed|setMeFree|trySetLeftUsed|setLeftFree)\(', r'FreeBlock_\1(self, ', 0, name='method')
+        t = rw.sub(t, r'GuardedSize::State\b', 'enum GuardedSize_State', 0, name='ns-strip')
+        t = rw.sub(t, r'GuardedSize::', '', 0, name='ns-strip')
+        t = rw.sub(t, r'\(uintptr_t\)this', '(uintptr_t)self', 0, name='this')
+        t = rw.sub(t, r'(?<![\w.>])(sizeTmp|nextToFree)\b', r'self->\1', 0, name='field')
+        t = with_literals_protected(t, lambda x: rw.asserts(x, 0, macro='MALLOC_ASSERT'))
+        return rw.std(t)
+    out.append(fb_method('rightNeig', r'FreeBlock \*rightNeig\(size_t sz\) const', 'static FreeBlock *FreeBlock_rightNeig(const FreeBlock *self, size_t sz)'))
+    out.append(fb_method('leftNeig', r'FreeBlock \*leftNeig\(size_t sz\) const', 'static FreeBlock *FreeBlock_leftNeig(const FreeBlock *self, size_t sz)'))
+    out.append(fb_method('setMeFree', r'void setMeFree\(size_t size\)', 'static void FreeBlock_setMeFree(FreeBlock *self, size_t size)'))
+    out.append(fb_method('trySetMeUsed', r'size_t trySetMeUsed\(GuardedSize::State s\)', 'static size_t FreeBlock_trySetMeUsed(FreeBlock *self, enum GuardedSize_State s)'))
+    out.append(fb_method('setLeftFree', r'void setLeftFree\(size_t sz\)', 'static void FreeBlock_setLeftFree(FreeBlock *self, size_t sz)'))
+    out.append(fb_method('trySetLeftUsed', r'size_t trySetLeftUsed\(GuardedSize::State s\)', 'static size_t FreeBlock_trySetLeftUsed(FreeBlock *self, enum GuardedSize_State s)'))
+    out.append(fb_method('tryLockBlock', r'size_t tryLockBlock\(\)', 'static size_t FreeBlock_tryLockBlock(FreeBlock *self)'))
+    if not re.search(r'const size_t FreeBlock::minBlockSize = sizeof\(FreeBlock\);', load(BE)):   # pattern-check minBlockSize
+        raise ExtractionBreak('FreeBlock::minBlockSize is no longer sizeof(FreeBlock)')
+    common.write(ctx, 'fbm.inc', '\n'.join(out) + '\n')
+    common.write(ctx, 'guard.inc', '\n'.join(out_gs + out) + '\n')
+    # splitBlock
+    out = []
+    s = slice_block(BH, r'static bool toAlignedBin\(FreeBlock \*block, size_t size\)')
+    sliced.append('%s:%d Backend::toAlignedBin' % (BH, s.line))
+    out.append(s.text)
+    s = slice_block(BE, r'FreeBlock \*Backend::splitBlock\(FreeBlock \*fBlock, int num, size_t size, bool blockIsAligned, bool needAlignedBlock\)')
+    sliced.append('%s:%d Backend::splitBlock' % (BE, s.line))
+    t = rw.sub(s.text, r'FreeBlock \*Backend::splitBlock\(FreeBlock \*fBlock, int num, size_t size, bool blockIsAligned, bool needAlignedBlock\)\s*\{',
+               'static FreeBlock *Backend_splitBlock(FreeBlock *fBlock, int num, size_t size, bool blockIsAligned, bool needAlignedBlock)\n{\n    size_t splitSize;', 1, 1, name='sig + declaration hoisted out of an if-condition (C grammar)')
+    t = rw.sub(t, r'\} else if \(size_t splitSize = ([^\n]*?)\) \{', r'} else if ((splitSize = \1)) {', 0, name='declaration hoisted out of an if-condition (C grammar)')
+    t = rw.sub(t, r'extMemPool->fixedPool', 'STUB_fixedPool()', 0, name='callee stub')
+    t = rw.sub(t, r'FreeBlock \*newBlock = alignUp\(fBlock, slabSize\);', 'FreeBlock *newBlock = (FreeBlock *)alignUp_ptr(fBlock, slabSize);', 0, name='bind-template(T:=FreeBlock*)')
+    t = rw.sub(t, r'\b(\w+)->initHeader\(\);', r'STUB_initHeader(\1);', 0, name='callee stub (locks both guard words of a header inside the block this thread holds)')
+    t = rw.sub(t, r'\bcoalescAndPut\(', 'STUB_coalescAndPut(', 0, name='callee stub (gives a piece back to the free bins)')
+    t = rw.sub(t, r'FreeBlock::markBlocks\(', 'STUB_markBlocks(', 0, name='callee stub')
+    t = rw.sub(t, r'\bfBlock->sizeTmp\b', 'FB_SIZETMP(fBlock)', 0, name='load of FreeBlock::sizeTmp -> accessor (ghost memory: the block may lie at any address)')
+    t = with_literals_protected(t, lambda x: rw.asserts(x, 0, macro='MALLOC_ASSERT'))
+    out.append(rw.std(t))
+    common.write(ctx, 'split.inc', '\n'.join(out) + '\n')
+    # doCoalesc: FreeBlock fields through accessors (ghost memory: four blocks in a row at arbitrary addresses), the guard words through the real GuardedSize code
+    ACC_W = lambda t: rw.sub(t, r'\b(\w+)->(sizeTmp|blockInBin|nextToFree) = ([^;]+);', r'FB_WR(\1, \2, \3);', 0, name='store into FreeBlock field -> FB_WR (ghost memory)')
+    ACC_R = lambda t: rw.sub(t, r'\b(\w+)->(sizeTmp|blockInBin|nextToFree)\b', r'FB_RD(\1, \2)', 0, name='load of FreeBlock field -> FB_RD (ghost memory)')
+    out = []
+    out.append(ACC_R(ACC_W(fb_method('markCoalescing', r'void markCoalescing\(size_t blockSz\)', 'static void FreeBlock_markCoalescing(FreeBlock *self, size_t blockSz)'))))
+    s = slice_block(BE, r'FreeBlock \*Backend::doCoalesc\(FreeBlock \*fBlock, MemRegion \*\*mRegion\)')
+    sliced.append('%s:%d Backend::doCoalesc' % (BE, s.line))
+    t = rw.sub(s.text, r'FreeBlock \*Backend::doCoalesc\(FreeBlock \*fBlock, MemRegion \*\*mRegion\)', 'static FreeBlock *Backend_doCoalesc(FreeBlock *fBlock, MemRegion **mRegion)', 1, 1, name='sig')
+    t = rw.sub(t, r'\b(\w+)->\s*(markCoalescing|trySetLeftUsed|trySetMeUsed|setLeftFree|setMeFree|leftNeig|rightNeig)\(', r'FreeBlock_\2(\1, ', 1, name='method')
+    t = rw.sub(t, r'(FreeBlock_rightNeig\([^()]*\))->\s*(trySetLeftUsed|trySetMeUsed|setLeftFree|setMeFree)\(', r'FreeBlock_\2(\1, ', 0, name='method of a neighbour')
+    t = rw.sub(t, r'\bcoalescQ\.putBlock\(', 'STUB_coalescQ_putBlock(', 0, name='callee stub (delayed-coalescing queue)')
+    t = rw.sub(t, r'(?<![\w.>])removeBlockFromBin\(', 'STUB_removeBlockFromBin(', 0, name='callee stub (takes a free block out of its bin, under the bin lock)')
+    t = rw.sub(t, r'static_cast<LastFreeBlock\*>\((\w+)\)->memRegion', r'LFB_MEMREGION(\1)', 0, name='load of LastFreeBlock::memRegion -> accessor')
+    t = rw.sub(t, r'\bmemRegion->allocSz\b', 'MR_ALLOCSZ(memRegion)', 0, name='load of MemRegion::allocSz -> accessor')
+    t = rw.sub(t, r'GuardedSize::', '', 0, name='ns-strip')
+    t = ACC_R(ACC_W(t))
+    t, _ = cxx2c.sub_call(t, r'\bMALLOC_ASSERT', lambda m, a: 'MALLOC_ASSERT(%s)' % ', '.join(re.sub(r'\s+', ' ', x) for x in a))   # an assertion spread over two lines: joined (its text becomes the obligation's name)
+    t = with_literals_protected(t, lambda x: rw.asserts(x, 0, macro='MALLOC_ASSERT'))
+    out.append(rw.std(t))
+    common.write(ctx, 'coalesc.inc', '\n'.join(out) + '\n')
+    fired['backend'] = rw.fired
+
+
 def build(ctx):
     sliced, fired = extract(ctx)
+    extract_aligned(ctx, sliced, fired)
+    extract_lloc(ctx, sliced, fired)
+    extract_pfl(ctx, sliced, fired)
+    extract_backend(ctx, sliced, fired)
     C = os.path.join(HERE, 'c17.c')
     jobs = [
         Job('sizeclass.map', C, 'h_sizeclass', route='LF', defines=['SC'], target='getSmallObjectIndex/getIndexOrObjectSize/getIndex/getObjectSize/highestBitPos', source=FE, timeout=600),
@@ -208,19 +607,57 @@ def build(ctx):
         Job('free.public', C, 'h_free_public', route='RG', defines=['BLK', 'FREE'], loops=True, nloops=1, target='Block::freePublicObject (public list push)', source=FE, timeout=600),
         Job('free.small', C, 'h_free_small', route='LF', defines=['BLK', 'FREE'], target='freeSmallObject (own / foreign thread dispatch; callees by their proved behaviour)', source=FE, timeout=600),
         Job('realloc.large', C, 'h_realloc_large', route='LF', defines=['RA'], target='reallocAligned (large-object branch)', source=FE, timeout=600),
+        Job('aligned.slab', C, 'h_aligned_slab', route='LF', defines=['ALN'], target='allocateAligned (slab answers: cases 1-3) + Block::findObjectToFree on the returned pointer', source=FE, timeout=600),
+        Job('aligned.slab.msize', C, 'h_aligned_slab_msize', route='LF', defines=['ALN', 'ALN_RECSTUB=0'], target='allocateAligned (slab answers) + internalMsize + Block::findObjectSize/getSize (isLargeObject by its proved answer for slab addresses)', source=FE, timeout=600),
+        Job('recognise.slab', C, 'h_recognise_slab', route='LF', defines=['ALN'], target='isLargeObject<ourMem|unknownMem> on an address inside a slab', source=FE, timeout=600),
+        Job('aligned.large', C, 'h_aligned_large', route='LF', defines=['ALN'], target='allocateAligned (large-object answers) + isLargeObject<ourMem>', source=FE, timeout=600),
+        Job('aligned.large.msize', C, 'h_aligned_large', route='LF', defines=['ALN', 'ALN_RECSTUB=1'], target='allocateAligned (large-object answers) + internalMsize (isLargeObject by its proved answer)', source=FE, timeout=600),
+        Job('lloc.guard', C, 'h_lloc_guard', route='LF', defines=['LLOC'], target='MemoryPool::getFromLLOCache (size + headers + alignment wrap-around guard, full 64-bit domain) + LargeObjectCache::alignToBin', source=FE, timeout=600),
+    ] + [Job('lloc.place.a%d' % j, C, 'h_lloc_place', route='LF', defines=['LLOC', 'LLOC_PLACE', 'LLOC_ALIGN_EXP=%d' % j], twin=(j == 6), target='MemoryPool::getFromLLOCache (placement with cache-line shuffling, alignment 2^%d) + isLargeObject<unknownMem>' % j, source=FE, timeout=300)
+         for j in range(6, 32)] + [
+        Job('lloc.place.a32plus', C, 'h_lloc_place', route='LF', defines=['LLOC', 'LLOC_PLACE', 'LLOC_ALIGN_MIN_EXP=32'], target='MemoryPool::getFromLLOCache (placement, every power-of-two alignment >= 2^32) + isLargeObject<unknownMem>', source=FE, timeout=300),
+        Job('lloc.bins', C, 'h_lloc_bins', route='LF', defines=['LLOC'], target='LargeObjectCache::alignToBin/sizeToIdx, LargeBinStructureProps / HugeBinStructureProps ::alignToBin/sizeToIdx, BitScanRev', source=LO_H, timeout=600),
+        Job('pfl.push', C, 'h_pfl_push', route='RG', defines=['PFL'], loops=True, nloops=1, target='Block::freePublicObject (whole: push + mailbox hand-off) + Bin::addPublicFreeListBlock', source=FE, timeout=300),
+        Job('pfl.ready', C, 'h_pfl_ready', route='RG', defines=['PFL'], loops=True, target='Block::readyToShare', source=FE, timeout=300),
+        Job('pfl.share', C, 'h_pfl_share', route='RG', defines=['PFL'], loops=True, nloops=1, target='Block::shareOrphaned + readyToShare', source=FE, timeout=300),
+        Job('pfl.privatize', C, 'h_pfl_privatize', route='RG', defines=['PFL'], loops=True, nloops=1, target='Block::privatizePublicFreeList (reset / no reset), chains of any length', source=FE, timeout=300),
+        Job('freelist.pop', C, 'h_pfl_pop', route='LF', defines=['PFL'], loops=True, target='Block::allocateFromFreeList', source=FE, timeout=300),
+        Job('guard.tryLock', C, 'h_gs_trylock', route='RG', defines=['BE', 'BE_GUARD'], loops=True, nloops=1, target='GuardedSize::tryLock', source=BE, timeout=300),
+        Job('guard.unlock', C, 'h_gs_unlock', route='RG', defines=['BE', 'BE_GUARD'], loops=True, target='GuardedSize::unlock', source=BE, timeout=300),
+        Job('guard.makeCoalscing', C, 'h_gs_coal', route='RG', defines=['BE', 'BE_GUARD'], loops=True, target='GuardedSize::makeCoalscing', source=BE, timeout=300),
+        Job('guard.tryLockBlock', C, 'h_fb_trylockblock', route='RG', defines=['BE', 'BE_GUARD'], loops=True, nloops=1, target='FreeBlock::tryLockBlock (+ trySetMeUsed, trySetLeftUsed, setMeFree, rightNeig, GuardedSize::tryLock/unlock)', source=BE, timeout=300),
+        Job('backend.split', C, 'h_split', route='LF', defines=['BE', 'BE_SPLIT'], target='Backend::splitBlock + toAlignedBin', source=BE, timeout=300, unwind=6),
+        Job('backend.coalesce', C, 'h_coalesce', route='RG', defines=['BE', 'BE_COAL'], unwind=8, target='Backend::doCoalesc + FreeBlock::markCoalescing/trySet*Used/set*Free/leftNeig/rightNeig (GuardedSize operations by their proved contracts)', source=BE, timeout=600),
         Job('realloc.small', C, 'h_realloc_small', route='LF', defines=['RA'], target='reallocAligned (slab-object branch)', source=FE, timeout=600),
     ]
     return {
         'jobs': jobs, 'sliced': sliced, 'fired': fired,
         'trusted': ['bsr instruction == index of the highest set bit (VERIF_BSR; cross-checked natively in tv)', 'sizeof(Block) == 128 == 2*estimatedCacheLineSize on x86-64 (static_assert in frontend.cpp gives <=; equality checked natively in tv)',
                     'allocateAligned / internalPoolMalloc / internalPoolFree / remap / findObjectSize / getMaxBinnedSize / isLargeObject as contract stubs in the reallocAligned proof',
-                    'memcpy replaced by a stub that checks both ranges are accessible for the requested length (no bytes copied)'],
-        'drops': ['namespace-scope const -> #define', 'MALLOC_ASSERT -> proof obligation', 'STAT_increment -> RG_NOP()', 'template<bool> -> parameter', '#if chains resolved for x86-64 linux (BACKEND_HAS_MREMAP=1)'],
-        'not_decided': ['privatizePublicFreeList / orphan adoption races; the mailbox notification tail of freePublicObject', 'backend coalescing (disjointness between slabs and large blocks)', 'getFromLLOCache placement', 'allocateAligned as a whole',
-                        'never writes into a live block (global)', 'scalable_calloc zero-fill'],
-        'assumptions': ['slab objects are placed at multiples of objectSize from the slab end (established by allocateFromBumpPtr: proved; preserved by the free lists: every address pushed by freeOwnObject / freePublicObject is proved to be such a start; the pop side (allocateFromFreeList, privatizePublicFreeList) is not under contract)', 'a pointer passed to free is the start of a live slab object, or (fitting bins only) an address inside it aligned to 2*fittingAlignment - what allocateAligned hands out'],
+                    'memcpy replaced by a stub that checks both ranges are accessible for the requested length (no bytes copied)',
+                    'aligned.*: internalPoolMalloc by contract (NULL, or the START of an object of the bin of the requested size in some slab; a large size goes to getFromLLOCache) - bin choice: sizeclass.map, starts only: block.bump, free.*, freelist.pop, pfl.privatize; getFromLLOCache by the contract proved in lloc.place.*/lloc.guard; isMallocInitialized/doInitialization/getTLS: arbitrary answers',
+                    'the back-reference table (backref.cpp: getBackRef/setBackRef/newBackRef) is not sliced: one entry is tracked, every other entry is NULL, a slab base, another live LargeObjectHdr or a link inside the table - never an address inside the slab payload or the large block under test',
+                    'lloc.place.*: the two block sources (LocalLOC::get, ExtMemoryPool::mallocLargeObject) by contract: NULL or a block with unalignedSize >= the size asked and a back-reference index with the largeObj bit; LargeObjectCache::alignToBin replaced by the lemma proved in lloc.guard (result < size, or result - size >= headers + alignment); in-code assertions are proved, then assumed',
+                    'Log2<N>::value == floor(log2 N), select_size_t_constant picks the 64-bit value, header layouts (BackRefIdx 8, LargeMemoryBlock 88, LargeObjectHdr 16, FreeBlock 56 bytes): cross-checked natively in tv (static_assert against the real classes)',
+                    'pfl.*: Block::isOwnedByCurrentThread / markOrphaned stubs; the mailbox lock as a critical section (mailbox written under it only); the mailbox holds slab pointers or NULL',
+                    'guard.* / backend.coalesce: boundary-tag rely - a free tag of a block reads the block\'s size on both sides of the border while the other tag is free or held by this thread; sizes found at lock time are prophesied; backend.coalesce uses GuardedSize::tryLock/unlock/makeCoalscing by the contracts proved in guard.*; CoalRequestQ::putBlock and removeBlockFromBin are recorders',
+                    'backend.split: coalescAndPut / initHeader / markBlocks are recorders; preconditions are the checks IndexedBins::getFromBin makes before it chooses a block (not sliced), num == 1 or size == slabSize'],
+        'drops': ['namespace-scope const -> #define', 'MALLOC_ASSERT -> proof obligation', 'STAT_increment / ITT / do_yield / suppress_unused_warning -> RG_NOP()', 'template<bool>, template<MemoryOrigin> -> parameter', '#if chains resolved for x86-64 linux (BACKEND_HAS_MREMAP=1, FREELIST_NONBLOCKING=1, MALLOC_CHECK_RECURSION=1)',
+                  'loads/stores of FreeObject::next, LargeMemoryBlock/LargeObjectHdr fields (lloc.*), FreeBlock fields (backend.*) -> accessor macros over ghost memory (blocks at arbitrary integer addresses)',
+                  'dereference(&header->backRefIdx) -> HDR_RD in the accessor rendering of isLargeObject (lloc.place.*)', 'label before a declaration gets an empty statement; a declaration inside an if-condition is hoisted (C grammar)',
+                  'the tail of freePublicObject is cut in job free.public (the whole function is job pfl.push)', 'empty(): assertion on the cross-thread accounting dropped (free.own)'],
+        'not_decided': ['the callers of privatizePublicFreeList (Bin::getPrivatizedFreeListBlock, cleanPublicFreeLists, privatizeOrphaned, OrphanedBlocks::cleanup) are not sliced: that they establish its precondition (slab out of the mailbox / orphaned, no notifier under way) is assumed; adoption of an orphan (privatizeOrphaned) and the LifoList of orphans',
+                        'the accounting invariant "publicly freed objects are still counted in allocatedCount; objects on the free list are not" is assumed at privatize / pop, not derived globally',
+                        'internalPoolMalloc as a whole (search order active slab / mailbox / orphan / new slab), Block::allocate, restoreBumpPtr, initEmptyBlock, StartupBlock',
+                        'LocalLOC put/get list surgery, LargeObjectCacheImpl bins (aggregator, ages, cleanup), ExtMemoryPool::mallocLargeObject, Backend::genericGetBlock / getFromBin / coalescAndPutList loop / releaseRegion / regions, BackRef table',
+                        'doCoalesc is proved per call with prophesied neighbour sizes; that the blocks of a region always tile it (global boundary-tag invariant) is the rely, not a theorem', 'mremap-based realloc (remap)', 'never writes into a live block (global)', 'scalable_calloc zero-fill',
+                        'memory orders weaker than SC (publicFreeList / nextPrivatizable / guard words use acquire/release/relaxed)', 'termination of the spin in shareOrphaned and of the CAS loops'],
+        'assumptions': ['slab objects are placed at multiples of objectSize from the slab end (established by allocateFromBumpPtr: proved; preserved by the free lists: every address pushed by freeOwnObject / freePublicObject is proved to be such a start; popped unchanged: freelist.pop, pfl.privatize)',
+                        'a pointer passed to free is the start of a live slab object, or (fitting bins only) an address inside it aligned to 2*fittingAlignment - what allocateAligned hands out (now proved: aligned.slab)',
+                        'alignment passed to allocateAligned is a power of two (validated by the entry points: C18)', 'addresses below 2^47 (user half of the x86-64 address space) in lloc.place.* / backend.*; block sizes below 2^44..2^46',
+                        'pfl.*: the slab is not adopted by a new owner during one call (adoption needs nextPrivatizable == UNUSABLE, which excludes a notifier under way); sequentially consistent atomics',
+                        'a public free list / private free list is a well-formed chain (no cycle) of objects'],
     }
-
 
 def tv(ctx):
     exe = native.build([os.path.join(HERE, 'c17_tv.cpp')], os.path.join(ctx.work, 'c17_tv'), flags=['-fno-access-control', '-I', os.path.join(ctx.repo, 'src/tbbmalloc'), '-I', os.path.join(ctx.repo, 'src'), '-D__TBBMALLOC_BUILD=1', '-ldl'], includes=[ctx.work, HERE])
@@ -229,7 +666,7 @@ def tv(ctx):
         raise native.NativeError('tv run failed rc=%s: %s' % (rc, out[-800:]))
     m = re.search(r'cases=(\d+)', out)
     return {'cases': int(m.group(1)) if m else 0, 'mismatches': [l for l in out.splitlines() if l.startswith('MISMATCH')],
-            'note': 'getIndex/getObjectSize/highestBitPos (all sizes 1..8128) and findAllocatedObject: extracted C vs the real frontend.cpp, exhaustive over the stated domain; sizeof(Block)==128',
+            'note': 'getIndex/getObjectSize/highestBitPos (all sizes 1..8128) and findAllocatedObject: extracted C vs the real frontend.cpp, exhaustive over the stated domain; LargeObjectCache::alignToBin/sizeToIdx at every bin boundary + 20000 pseudo-random sizes; sizeof(Block)==128 and the header views of the large-object / backend sections (static_assert against the real classes)',
             'samples': [l for l in out.splitlines() if l.startswith('SAMPLE')][:5]}
 
 
